@@ -720,6 +720,42 @@ unsafe fn scenario_immortal(seed: u64, out: &mut Outcome) {
         out.check(json.contains("remote_addr"), || "remote address missing after set_remote_addr".to_string());
         redirectionio_request_drop(r);
     }
+    // a list given at creation and the same entries added one by one describe the same proxies: the client address
+    // derived from a forwarding chain must be the same (unparsable entries are skipped, wherever they stand)
+    {
+        let lists: [&[&str]; 6] = [
+            &["203.0.113.0/24"],
+            &["not-an-ip", "203.0.113.0/24"],
+            &["203.0.113.0/24", "not-an-ip", "198.51.100.0/24"],
+            &["", " 198.51.100.0/24 ", "garbage/99", "203.0.113.9"],
+            &["garbage"],
+            &["2001:db8::/32", "300.1.1.1", "203.0.113.0/24"],
+        ];
+        let entries = lists[rng.below(lists.len())];
+        let joined = cstr(&entries.join(","));
+        let at_once = redirectionio_trusted_proxies_create(joined.as_ptr()) as *mut TrustedProxies;
+        let one_by_one = redirectionio_trusted_proxies_create(cstr("").as_ptr()) as *mut TrustedProxies;
+        for e in entries {
+            redirectionio_trusted_proxies_add_proxy(one_by_one, cstr(e.trim()).as_ptr());
+        }
+        let chains: [&[u8]; 4] = [b"192.0.2.55, 198.51.100.7", b"192.0.2.55, 203.0.113.9, 198.51.100.7", b"192.0.2.55", b"192.0.2.55, 2001:db8::5"];
+        let chain = chains[rng.below(chains.len())];
+        let peer = ["203.0.113.9:443", "198.51.100.7:80", "10.0.0.1:1", "[2001:db8::9]:443"][rng.below(4)];
+        let mut seen: Vec<String> = Vec::new();
+        for proxies in [at_once, one_by_one] {
+            let headers = build_header_map(&[(b"X-Forwarded-For".to_vec(), chain.to_vec())]);
+            let r = redirectionio_request_create(cstr("/x").as_ptr(), null(), null(), null(), headers) as *mut Request;
+            let _ = take_header_map(headers);
+            if !r.is_null() {
+                redirectionio_request_set_remote_addr(r, cstr(peer).as_ptr(), proxies);
+                seen.push(format!("{:?}", (*r).remote_addr));
+                redirectionio_request_drop(r);
+            }
+        }
+        out.check(seen.len() == 2 && seen[0] == seen[1], || {
+            format!("trusted proxies {entries:?} given at creation yield client address {:?}, added one by one {:?} (peer {peer}, X-Forwarded-For {:?})", seen.first(), seen.get(1), String::from_utf8_lossy(chain))
+        });
+    }
     redirectionio_log_init_with_callback(log_callback, &*(&CALLBACK_DATA as *const u8 as *const c_void));
     // produce a log line through the callback: an invalid action json logs an error
     let c = cstr("{not json").into_raw();
